@@ -593,7 +593,13 @@ def r14_saved_flags_verbatim(ctx, rule):
             if not okv:
                 names = {x.id for x in ast.walk(v) if isinstance(x, ast.Name)}
                 bad = True
-                if names & set(ps) and any(isinstance(x, ast.Subscript) and const(x.slice) == key for x in ast.walk(v)):
+                other_key = isinstance(inner, ast.Subscript) and isinstance(inner.value, ast.Name) and inner.value.id in ps \
+                    and isinstance(const(inner.slice), str) and const(inner.slice) != key
+                if other_key:
+                    ctx.bad(rule, q, 'saved %s = %s' % (key, U(v)[:70]),
+                            'the option is saved from the value of ANOTHER option: a session started with exactly one of the two flags is '
+                            'resumed in a different grammar', None, c, firm=True)
+                elif names & set(ps) and any(isinstance(x, ast.Subscript) and const(x.slice) == key for x in ast.walk(v)):
                     ctx.bad(rule, q, 'saved %s = %s' % (key, U(v)[:70]),
                             'the session file must record the option as given; the restored value is what the grammar is loaded with on '
                             'every resume, so a value altered here changes the language of the resumed run', None, c, firm=True)
